@@ -462,3 +462,71 @@ func sampleCase(l *mc.Local, dx, dy int, xf xform, fixed *rcase) {
 	}
 	l.Distinct("outcomes", "S "+xf.class)
 }
+
+// runExactLattice: upright grids at an EVEN number of pixels per module with exactly known
+// reference points (the detectors' 3.5-module offsets): every cell centre maps exactly onto an
+// integer pixel coordinate k, every intermediate value of the documented formula is exactly
+// representable, and the pixel under the centre is pixel k (the half-open pixel [k, k+1)). The other
+// sampling sub-spaces stay 1/64 pixel away from pixel boundaries; here the boundary itself is the
+// subject. Image: a pixel-level checkerboard (every neighbour differs).
+type latticeCase struct {
+	Kind   string // "exact-lattice"
+	Dim    int
+	Scale  int
+	Ox, Oy int
+}
+
+func latticeOne(l *mc.Local, c latticeCase) {
+	w, h := c.Ox+c.Scale*c.Dim+3, c.Oy+c.Scale*c.Dim+4
+	img, _ := gozxing.NewBitMatrix(w, h)
+	for y := 0; y < h; y++ {
+		for x := 0; x < w; x++ {
+			if (x+y)&1 == 1 {
+				img.Set(x, y)
+			}
+		}
+	}
+	lo, hi := 3.5, float64(c.Dim)-3.5
+	s := float64(c.Scale)
+	ox, oy := float64(c.Ox), float64(c.Oy)
+	var bits *gozxing.BitMatrix
+	var err error
+	pm, site := mc.Guard(func() {
+		bits, err = common.NewDefaultGridSampler().SampleGrid(img, c.Dim, c.Dim,
+			lo, lo, hi, lo, hi, hi, lo, hi,
+			ox+s*lo, oy+s*lo, ox+s*hi, oy+s*lo, ox+s*hi, oy+s*hi, ox+s*lo, oy+s*hi)
+	})
+	l.Count("evaluations", 1)
+	switch {
+	case pm != "":
+		chk.Violation("C19/panic/"+site+"/exact-lattice", fmt.Sprintf("%+v: %s", c, pm), c)
+		return
+	case err != nil || bits == nil:
+		chk.Violation("C19/sample/unexpected-error/exact-lattice", fmt.Sprintf("%+v: every cell centre is inside the image, SampleGrid failed: %v", c, err), c)
+		return
+	}
+	half := c.Scale / 2
+	for y := 0; y < c.Dim; y++ {
+		for x := 0; x < c.Dim; x++ {
+			px, py := c.Ox+c.Scale*x+half, c.Oy+c.Scale*y+half
+			if bits.Get(x, y) != img.Get(px, py) {
+				chk.Violation("C19/sample/bit/exact-lattice", fmt.Sprintf("%+v: cell (%d,%d), whose centre maps exactly onto (%d,%d), is %v; pixel (%d,%d) is %v", c, x, y, px, py, bits.Get(x, y), px, py, img.Get(px, py)), c)
+				return
+			}
+		}
+	}
+	l.Distinct("nontrivial", fmt.Sprint("lattice", c))
+}
+
+func runExactLattice() {
+	var cases []latticeCase
+	maxDim := chk.Pick(64, 177)
+	for _, sc := range []int{2, 4, 6} {
+		for dim := 8; dim <= maxDim; dim++ {
+			cases = append(cases, latticeCase{"exact-lattice", dim, sc, 5, 9}, latticeCase{"exact-lattice", dim, sc, 0, 0})
+		}
+	}
+	chk.Range(fmt.Sprintf("sampling: upright grids of %d..%d cells at 2, 4 and 6 pixels per module with exact reference points (every cell centre exactly on an integer pixel coordinate), pixel-level checkerboard image, origins (5,9) and (0,0): every cell == the pixel [k,k+1) that holds its centre", 8, maxDim), len(cases),
+		func(i int) string { return fmt.Sprintf("%+v", cases[i]) },
+		func(l *mc.Local, i int) { latticeOne(l, cases[i]) })
+}
